@@ -101,6 +101,9 @@ pub struct VhostUserHandler<T: VhostUserBackend> {
     mappings: Vec<AddrMapping>,
     atomic_mem: GM<T::Bitmap>,
     vrings: Vec<T::Vring>,
+    // The dirty log installed by the last successful SET_LOG_BASE, kept so that guest memory
+    // added or replaced afterwards is logged too.
+    logmem: Option<Arc<MmapLogReg>>,
     #[cfg(feature = "postcopy")]
     uffd: Option<Uffd>,
     worker_threads: Vec<thread::JoinHandle<VringEpollResult<()>>>,
@@ -162,6 +165,7 @@ where
             mappings: Vec::new(),
             atomic_mem,
             vrings,
+            logmem: None,
             #[cfg(feature = "postcopy")]
             uffd: None,
             worker_threads,
@@ -273,6 +277,25 @@ where
     }
 }
 
+impl<T: VhostUserBackend> VhostUserHandler<T>
+where
+    T::Bitmap: BitmapReplace + NewBitmap + Clone,
+{
+    // Attach the dirty log currently in force, if any, to a region that is about to become part
+    // of the guest memory.
+    fn log_new_region(&self, region: &GuestRegionMmap<T::Bitmap>) -> VhostUserResult<()> {
+        if let Some(logmem) = self.logmem.as_ref() {
+            let bitmap = <<T as VhostUserBackend>::Bitmap as BitmapReplace>::InnerBitmap::new(
+                region,
+                Arc::clone(logmem),
+            )
+            .map_err(VhostUserError::ReqHandlerError)?;
+            region.bitmap().replace(bitmap);
+        }
+        Ok(())
+    }
+}
+
 impl<T: VhostUserBackend> VhostUserBackendReqHandlerMut for VhostUserHandler<T>
 where
     T::Bitmap: BitmapReplace + NewBitmap + Clone,
@@ -362,6 +385,7 @@ where
             .ok_or(VhostUserError::ReqHandlerError(
                 io::ErrorKind::InvalidInput.into(),
             ))?;
+            self.log_new_region(&guest_region)?;
             mappings.push(AddrMapping {
                 #[cfg(feature = "postcopy")]
                 local_addr: guest_region.as_ptr() as u64,
@@ -657,6 +681,8 @@ where
             ))?,
         );
 
+        self.log_new_region(&guest_region)?;
+
         let addr_mapping = AddrMapping {
             #[cfg(feature = "postcopy")]
             local_addr: guest_region.as_ptr() as u64,
@@ -818,6 +844,7 @@ where
         for (region, bitmap) in bitmaps {
             (*region).bitmap().replace(bitmap);
         }
+        self.logmem = Some(logmem);
 
         Ok(())
     }
